@@ -12,7 +12,7 @@ RULE = ("(a) every key of the element table in 8 (quick) / 33 (thorough) context
         "(b) every program of <= 3 (quick) / <= 5 (thorough) symbols over the 14-symbol structural alphabet [ ] ( ) { } λ ; | X x v ₌ 1, "
         "plus a seeded sample of longer ones; (e) every code-page character in every header position (function name, each parameter kind, loop variable, variable name, lambda arity); (c) grammar-derived programs to depth 4 with all token kinds and all eleven modifier "
         "characters; (d) string literals with every backslash escape. A program whose parse raises (a modifier without enough operands, a "
-        "non-integer lambda arity) is not well-formed and is skipped (counted). Oracle: transpile returns and compile() accepts the text. "
+        "non-integer lambda arity) is not well-formed and is skipped (counted); (f) every structure with 1..9 branches, several bodies, several contexts, closed and end-truncated. Oracle: transpile returns and compile() accepts the text. "
         "Correspondence: ast.parse of the text vs the Lean transpiler model's tree. Non-trivial = distinct well-formed program.")
 TRUSTED = ["T3 CPython's compile() is the judge of 'syntactically valid Python'"]
 
@@ -211,12 +211,27 @@ def run(ctx, widen=False):
             hdr += [f"@f:{d}|1;", f"@f:a:{d}|+;", f"λ{d}|1;", f"@f:{d}:*|W;", f"({d}|1)", f"@{d}|1;@{d};"]
     progs += hdr
     ctx.bump("(e) headers with every code-page character and every short digit string", len(hdr))
+    # (f) every structure with 1..9 branches (the templates nest one level per branch: the text-level indentation is only
+    # exercised by long chains), bodies of several kinds, in several contexts, closed and end-truncated
+    sweep = []
+    bodies = ["", "1", "X", "x", "n+", "[1|2]", "(n)", "λ1;"]
+    for op, cl in (("[", "]"), ("(", ")"), ("{", "}"), ("λ", ";"), ("ƛ", ";"), ("'", ";"), ("µ", ";"), ("⟨", "⟩"), ("@f:", ";"), ("@f|", ";")):
+        for nb in range(1, 10):
+            for body in bodies:
+                inner = "|".join([body] * nb)
+                for pre, post in (("", ""), ("3(", ")"), ("λ", ";"), ("⟨", "⟩"), ("[1|", "]"), ("{1|", "}"), ("v", ""), ("₌+", "")):
+                    sweep.append(pre + op + inner + cl + post)
+                sweep.append(op + inner)                      # end-truncated
+            mixed = "|".join(bodies[(i + nb) % len(bodies)] for i in range(nb))
+            sweep += [op + mixed + cl, "2(" + op + mixed + cl + ")", op + mixed]
+    progs += sweep
+    ctx.bump("(f) branch-count sweep (1..9 branches x structure x body x context)", len(sweep))
     progs = list(dict.fromkeys(progs))
     cases = [{"prog": p, "dict": True} for p in progs] + [{"prog": p, "dict": False} for p in esc + progs[:2000]]
     ctx.check_many("compiles", cases)
     ctx.exhaustive = ctx.tier == "thorough"
     ctx.sample({"prog": "3(λ[X];)", "python": transpile("3(λ[X];)")[:300]})
-    sub = progs if thorough else progs[: 9000]
+    sub = progs if thorough else (progs[: 9000] + sweep[:: 7])
     aststream.run_stream(ctx, sub, dict_compress=False)
     placed_stream(ctx, sub)
     nocomp = [p for p in sub[:3000] if not any(c in g["codepage"][:0] for c in p)]
